@@ -36,6 +36,24 @@ def judgeTdHash (input : Bytes) (resp : String) : Verdict :=
       | none => expect (resp == "err") "document does not conform to its declared types (or domain type malformed / type undefined): must be refused"
     | _ => .skip
 
+/-- the same judgement for the command-line routes, which print one digest (`--message-hash`:
+the message struct hash, otherwise the signing digest) -/
+def judgeCliHashTd (input : Bytes) (messageHash : Bool) (resp : String) : Verdict :=
+  match Json.parseRaw input with
+  | none => .skip
+  | some raw =>
+    match blobOfJson raw with
+    | .ok b =>
+      let fuel := 3 * (jsizeMembers b.domain + jsizeMembers b.message) + 4
+      match Spec.Eip712.digests Prim.keccak256 b.types b.primaryType b.domain b.message fuel with
+      | some (_, mh, dg) =>
+        let want := "0x" ++ String.join ((if messageHash then mh else dg).map fun x => lowerHexFixed x.toNat 2) ++ "\n"
+        if resp == "ok " ++ hx want.toUTF8.toList then .holds
+        else if resp == "err" && (hasOpenLiteralMembers b.domain || hasOpenLiteralMembers b.message) then .holds
+        else .fails "printed digest differs from the EIP-712 value for this document"
+      | none => expect (resp == "err") "ill-formed domain type / non-conforming document: every command must refuse it before hashing anything"
+    | _ => .skip
+
 def judgeEncodeType (typesJson : Bytes) (name : Str) (resp : String) : Verdict :=
   match Json.parseRaw typesJson with
   | some (.obj kv) =>
